@@ -3,14 +3,15 @@ import random
 import re as pyre
 
 import common
-from common import Broken, coq_bool, coq_list, coq_string
+from common import Broken, coq_bool, coq_list, coq_opt, coq_string
 
-FILES = ["Base/Re.v", "Base/Grammar.v", "Model/ForecastM.v", "Model/C19Case.v", "Proofs/C19.v", "Props/C19.v"]
+FILES = ["Base/Re.v", "Base/Grammar.v", "Model/ForecastM.v", "Model/SliceM.v", "Model/C19Case.v", "Proofs/C19.v", "Proofs/C19Slice.v", "Props/C19.v"]
 HEADER = ("From Coq Require Import List String NArith Bool Arith.\n"
-          "From FV Require Import Base.Re Base.Grammar Model.ForecastM Model.C19Case.\n"
+          "From FV Require Import Base.Re Base.Grammar Model.ForecastM Model.SliceM Model.C19Case.\n"
           "Import ListNotations.\nOpen Scope string_scope.\nOpen Scope list_scope.\n")
-CT = "(list (string * rhs) * list msg * list msg * bool)"
-PT = "(list (string * rhs) * list msg * list msg * bool * list (msg * msg))"
+CT = "(list (string * rhs) * option (list string) * list msg * list msg * bool)"
+RT = "(list (string * rhs) * list string)"
+PT = "(list (string * rhs) * option (list string) * list msg * list msg * bool * list (msg * msg))"
 KNOWN_NULL = ("empty-deriving-nonterminal-not-completed: the forecaster re-parses the history with the Earley parser, which does not complete an empty-deriving "
               "nonterminal in every case (C05 nullable-reprediction): with such a control nonterminal a full interaction is not reported complete, or continuations "
               "after the empty derivation are not offered")
@@ -55,8 +56,9 @@ def obligations(res):
         "non-recursive protocol grammars only (recursion through non-message nonterminals makes the model give up: code 5, counted); open-ended repetitions "
         "are unbounded in the model, capped at nodes.MAX_REPETITIONS (20) in the code: histories explored are shorter",
         "completeness is not judged for the empty history (predict() takes a shortcut there and never reports a complete tree); slicing: 30% of the "
-        "generated grammars are sliced to a subset of parties with the real slice_parties() first -- the forecast must then be exact for the SLICED "
-        "grammar (what slicing itself should yield is not judged)",
+        "generated grammars are sliced to a subset of parties with the real slice_parties(ignore_receivers=True) first; the model slices the exported "
+        "UNSLICED rules itself (Model/SliceM.v, a model of PacketTruncator + the rule-deletion rounds) and the real forecasts on the really sliced grammar "
+        "must be exact for the model's sliced expression (slicing with ignore_receivers=False is not exercised)",
         "histories are built the way the search does it: the option's mounting path is taken and the message node fuzzed into the collapsed history tree",
     ]
 
@@ -121,6 +123,20 @@ FIXED = [
 ]
 
 
+# grammars sliced to fixed party sets: runs of adjacent alternatives / sequence members / repetitions that are all to be removed, rules that vanish entirely
+MS = "<m0> ::= 'm0;'\n<m1> ::= 'm1;'\n<m2> ::= 'm2;'\n<m3> ::= 'm3;'\n<m5> ::= 'm5;'\n"
+FIXED_SLICED = [
+    ("<start> ::= <Fuzzer:Extern:m0> (<Extern:Third:m1> | <Third:Extern:m3> | <Fuzzer:Extern:m2> | <Extern:m5> | <Third:Extern:m1>) <Fuzzer:Third:m2>\n" + MS + PARTIES,
+     ["<start>"], {"Fuzzer"}),
+    ("<start> ::= <Fuzzer:Extern:m0> <c> <Fuzzer:Third:m2>?\n<c> ::= <d> | <e> | <Third:Fuzzer:m3> | <Fuzzer:Extern:m2>\n<d> ::= <Extern:Fuzzer:m1>+\n"
+     "<e> ::= <Extern:Third:m5> <Extern:Fuzzer:m1>\n" + MS + PARTIES, ["<start>", "<c>", "<d>", "<e>"], {"Fuzzer", "Third"}),
+    ("<start> ::= (<Extern:Fuzzer:m1> <Third:Fuzzer:m3> <Fuzzer:Extern:m0> <Extern:m5> <Third:Extern:m3>){1,2} <k>*\n<k> ::= <Third:Fuzzer:m3> | <Extern:Fuzzer:m1>\n"
+     + MS + PARTIES, ["<start>", "<k>"], {"Fuzzer"}),
+    ("<start> ::= <a> <Fuzzer:Extern:m0>\n<a> ::= <b> | <b> <b>\n<b> ::= <Extern:Fuzzer:m1> | <Third:Fuzzer:m3>\n" + MS + PARTIES, ["<start>", "<a>", "<b>"], {"Fuzzer"}),
+    ("<start> ::= <a>\n<a> ::= <Extern:Fuzzer:m1> | <Third:Fuzzer:m3>\n" + MS + PARTIES, ["<start>", "<a>"], {"Fuzzer"}),
+]
+
+
 def option_names(pred):
     out = set()
     for party, fnt in pred.parties_to_packets.items():
@@ -175,25 +191,27 @@ def gen_worker(args):
     res = c07.MiniRes()
     rng = random.Random(seed * 353 + 29)
     terms, infos = [], []
-    specs = list(FIXED) if seed % 1000 == 0 else []
+    specs = [(s_, n_, None) for s_, n_ in FIXED] if seed % 1000 == 0 else (list(FIXED_SLICED) if seed % 1000 == 1 else [])
     while len(specs) < n:
-        specs.append(gen_protocol(rng))
-    for spec, names in specs:
+        specs.append(gen_protocol(rng) + (None,))
+    for spec, names, forced in specs:
         try:
             fan = Fandango(spec, use_stdlib=False, use_cache=False)
             g = fan.grammar
             sliced = None
-            if rng.random() < 0.3:
-                # the spec sliced to a subset of parties (as `fandango ... --party` does): the forecast must be exact for the sliced grammar
+            rx = c15.RuleExport(g, [], set(names))          # exported BEFORE slicing: the model slices by itself
+            if forced or rng.random() < 0.3:
+                # the spec sliced to a subset of parties (as `fandango ... --party` does)
                 from fandango.language.parse.slice_parties import slice_parties
-                sliced = rng.choice([{"Fuzzer"}, {"Extern"}, {"Fuzzer", "Third"}, {"Extern", "Third"}])
+                sliced = forced or rng.choice([{"Fuzzer"}, {"Extern"}, {"Fuzzer", "Third"}, {"Extern", "Third"}, {"Third"}])
                 slice_parties(g, set(sliced), ignore_receivers=True)
                 from fandango.language.symbols import NonTerminal as _NT
+                res.bump("sliced_grammar")
                 if _NT("<start>") not in g.rules:
                     res.bump("sliced_away_start")
+                    terms.append(("removed", rx.term(), sorted(sliced)))
+                    infos.append({"spec": spec.split("class Fuzzer")[0], "sliced_to": sorted(sliced), "history": None, "start_sliced_away": True})
                     continue
-                res.bump("sliced_grammar")
-            rx = c15.RuleExport(g, [], set(names))
             fc = PacketForecaster(g)
             import earley
             nul = earley.nullable_map(g)[0]
@@ -213,7 +231,7 @@ def gen_worker(args):
             continue
         for hist, opts, complete in records:
             judged_complete = complete if hist else None
-            terms.append((rx.term(), hist, opts, complete))
+            terms.append((rx.term(), sorted(sliced) if sliced else None, hist, opts, complete))
             infos.append({"spec": spec.split("class Fuzzer")[0], "sliced_to": sorted(sliced) if sliced else None, "history": hist, "offered": opts,
                           "reported_complete": complete, "nullable_control_nonterminals": nullable_control})
             res.count(("forecast", spec, tuple(sorted(sliced)) if sliced else None, tuple(hist)), nontrivial=len(hist) >= 1)
@@ -229,11 +247,24 @@ def correspondence(res):
     n = 84 if res.tier == "quick" else 336
     terms, infos = c02.parallel(res, gen_worker, [(res.seed * 1000 + w, max(1, n // W)) for w in range(W)])
     crashes = [inf for t, inf in zip(terms, infos) if t is None]
-    pairs = [(t, inf) for t, inf in zip(terms, infos) if t is not None]
+    removed = [(t, inf) for t, inf in zip(terms, infos) if t is not None and t[0] == "removed"]
+    pairs = [(t, inf) for t, inf in zip(terms, infos) if t is not None and t[0] != "removed"]
+
+    def keep_term(keep):
+        return coq_opt(None if keep is None else coq_list([coq_string(k) for k in keep]))
+    # <start> sliced away by the implementation: the slicing model must slice it away, too
+    if removed:
+        rcodes = common.run_case_codes("C19", "removed", HEADER, [f"({t[1]}, {coq_list([coq_string(k) for k in t[2]])})" for t, _ in removed], "c19_removed", chunk=60, ctype=RT)
+        for code, (t, inf) in zip(rcodes, removed):
+            if code is None:
+                raise Broken("evaluation failed (case file)", repr(inf)[:500])
+            if code == 0 and len(res.violations) < 3:
+                res.violation("slicing to a subset of parties removed the whole protocol although messages of the kept parties remain in it", inf)
+            res.bump("start_sliced_away_in_model_too" if code == 1 else "start_sliced_away_code_%d" % code)
     # the empty history: completeness not judged (the model's verdict is substituted)
     cterms = []
-    for (rules, hist, opts, complete), inf in pairs:
-        cterms.append(f"({rules}, {coq_list([coq_string(h) for h in hist])}, {coq_list([coq_string(o) for o in opts])}, {coq_bool(complete)})")
+    for (rules, keep, hist, opts, complete), inf in pairs:
+        cterms.append(f"({rules}, {keep_term(keep)}, {coq_list([coq_string(h) for h in hist])}, {coq_list([coq_string(o) for o in opts])}, {coq_bool(complete)})")
     codes = common.run_case_codes("C19", "eval", HEADER, cterms, "c19_eval", chunk=60, ctype=CT)
     res.coverage["rule"] = ("7 fixed protocol grammars (incl. tests/resources/forecaster.fan with parties, 'after the last allowed repetition' shapes) + random "
                             "protocol grammars (1-3 control nonterminals, 2-6 message types over 3 parties, nested groups x ? * + {n} {n,m} {n,}); histories "
@@ -246,7 +277,7 @@ def correspondence(res):
     # the recorded finding: grammars in which one sender sends one message type to different recipients
     import re as _re
     proj_idx, proj_terms = [], []
-    for i, (code, ((rules, hist, opts, complete), inf)) in enumerate(zip(codes, pairs)):
+    for i, (code, ((rules, keep, hist, opts, complete), inf)) in enumerate(zip(codes, pairs)):
         if code in (0, 2, 3) and not (code == 2 and not hist):
             refs = set(_re.findall(r"<(\w+):(?:(\w+):)?(\w+)>", inf["spec"]))
             by = {}
@@ -256,13 +287,13 @@ def correspondence(res):
             if merged:
                 tab = [(f"{s_}:{r_ or 'None'}:<{n_}>", f"{s_}:*:<{n_}>") for s_, r_, n_ in refs if (s_, n_) in merged]
                 proj_idx.append(i)
-                proj_terms.append(f"({rules}, {coq_list([coq_string(h) for h in hist])}, {coq_list([coq_string(o) for o in opts])}, {coq_bool(complete)}, "
+                proj_terms.append(f"({rules}, {keep_term(keep)}, {coq_list([coq_string(h) for h in hist])}, {coq_list([coq_string(o) for o in opts])}, {coq_bool(complete)}, "
                                   f"{coq_list([f'({coq_string(a)}, {coq_string(b)})' for a, b in sorted(tab)])})")
     pcodes = common.run_case_codes("C19", "proj", HEADER, proj_terms, "c19_eval_proj", chunk=60, ctype=PT) if proj_terms else []
-    merged_ok = {i for i, v in zip(proj_idx, pcodes) if v == 1 or v == 5 or (v == 2 and not pairs[i][0][1])}
+    merged_ok = {i for i, v in zip(proj_idx, pcodes) if v == 1 or v == 5 or (v == 2 and not pairs[i][0][2])}
     for c in crashes[:3]:
         res.violation("the forecaster raised on a history that it produced itself", c)
-    for i_, (code, ((rules, hist, opts, complete), inf)) in enumerate(zip(codes, pairs)):
+    for i_, (code, ((rules, keep, hist, opts, complete), inf)) in enumerate(zip(codes, pairs)):
         if code is None:
             raise Broken("evaluation failed (case file)", repr(inf)[:500])
         if code == 1 or (code == 2 and not hist):
@@ -276,12 +307,16 @@ def correspondence(res):
         if code == 5:
             res.bump("model_gave_up_recursive_grammar")
             continue
+        if code == 6:
+            if len(res.violations) < 3:
+                res.violation("slicing to a subset of parties: the model slices <start> away entirely, the implementation keeps a protocol", inf)
+            continue
         if i_ in merged_ok and "options-merged-over-recipients" in sigs:
             res.known(KNOWN_MERGE)
             res.bump("known_merged_recipients")
             continue
         if len(res.violations) < 3:
-            what = ("the options offered after a history differ from the messages that can follow it in the grammar" if code == 0 else
+            what = ("the options offered after a history differ from the messages that can follow it in the grammar" + (" sliced to %s" % keep if keep else "") if code in (0, 3) else
                     "the history is reported complete although it is not a full interaction (or vice versa)")
             res.violation(what, inf)
     res.coverage["traces_validated_against_impl"] = ok
